@@ -157,18 +157,14 @@ def _recognise(text):
             return blocks
         typ = m.group(1).lower()
         body = m.end()
-        if typ.startswith("comment") or typ.startswith("preamble"):
-            if typ not in ("comment", "preamble"):
-                raise Reject("R4")
+        if typ in ("comment", "preamble"):  # (R4 lifted: @commentary, @stringent, @preambles are entry types - F30)
             close = _balanced(text, body)
             inner = text[body:close]
             if BLOCK_START.search(inner):
                 raise Reject("R1")
             blocks.append((typ, inner.strip()))
             pos = close + 1
-        elif typ.startswith("string"):
-            if typ != "string":
-                raise Reject("R4")
+        elif typ == "string":
             key, i = _key(text, body)
             if key == "" or i >= n or text[i] != "=":
                 raise Reject("string key / '='")
